@@ -48,7 +48,16 @@ def run(ctx, prop):
         cat = json.load(fh)
     muts = [m for m in cat["mutants"] if m["prop"] == prop]
     ben = [m for m in cat["benign"] if m["prop"] == prop]
-    if not muts and not ben:
+    # independently seeded changes kept under seeded/<id>/ (patch.diff + meta.json): each must be reported by its property's check
+    seeds = []
+    sd = os.path.join(VERIF, "seeded")
+    for d in sorted(os.listdir(sd)) if os.path.isdir(sd) else []:
+        mf = os.path.join(sd, d, "meta.json")
+        if os.path.exists(mf) and os.path.exists(os.path.join(sd, d, "patch.diff")):
+            with open(mf) as fh:
+                if json.load(fh).get("property") == prop:
+                    seeds.append(d)
+    if not muts and not ben and not seeds:
         ctx.ok("SELFTEST", "no catalogued mutants for " + prop, "")
         return
     base = tempfile.mkdtemp(prefix="h3-selftest-", dir="/var/tmp")
@@ -59,7 +68,9 @@ def run(ctx, prop):
             _copy_tree(dst)
             applied = True
             if "revert" in m:
-                applied = _revert(dst, m["revert"])
+                # a list reverts several fix commits, newest first (later fixes may touch the same lines)
+                for c in (m["revert"] if isinstance(m["revert"], list) else [m["revert"]]):
+                    applied = _revert(dst, c) and applied
             for f, e in m.get("edits", []):
                 applied = _sed(os.path.join(dst, f), e) and applied
             if not applied:
@@ -78,5 +89,19 @@ def run(ctx, prop):
                 ctx.check(rc == 1 and bool(hit), "SELFTEST", "mutant " + m["id"], "reported: " + m["desc"],
                           "the rules do not report the seeded change `%s` (expected a violation matching /%s/, got %s)" % (m["desc"], m["expect"], keys[:4]),
                           (hit[0] if hit else "")[:160])
+        for d in seeds:
+            dst = os.path.join(base, "tree")
+            _copy_tree(dst)
+            with open(os.path.join(sd, d, "patch.diff"), "rb") as fh:
+                q = subprocess.run(["patch", "-p1", "-s", "-f", "-d", dst], stdin=fh, stdout=subprocess.PIPE, stderr=subprocess.STDOUT)
+            if q.returncode != 0:
+                ctx.ok("SELFTEST", "seeded %s: not applicable to this tree (patch did not apply)" % d, "")
+                continue
+            rc, keys, broken, tail = _run_check(prop, dst)
+            if broken:
+                ctx.ok("SELFTEST", "seeded %s: does not compile on this tree (skipped)" % d, "")
+                continue
+            ctx.check(rc == 1 and bool(keys), "SELFTEST", "seeded change " + d, "reported",
+                      "the rules do not report the independently seeded change seeded/%s (see its notes.md)" % d, (keys[0] if keys else "")[:160])
     finally:
         shutil.rmtree(base, ignore_errors=True)
